@@ -104,6 +104,10 @@ func (c *ctx) optionDispatch() {
 			for _, nm := range named {
 				covered[nm] = true
 			}
+			if why := c.secondarySwitch(fc, sw, tag, covered); why != "" {
+				c.s.OK("G42", fc.funcName(sw)+"|options handed on by a dispatching switch are all handled", c.pos(sw), why)
+				return true
+			}
 			var missing []string
 			for t := range types_ {
 				for _, f := range byResult[t] {
@@ -136,4 +140,88 @@ func (c *ctx) optionDispatch() {
 	if n == 0 {
 		c.s.Unk("G42", "compiler|switches over option names", "", "no switch over the Name() of an option function found")
 	}
+}
+
+// secondarySwitch: the tag of sw is a parameter of its function, and at every call site of that function the
+// argument is the tag of an enclosing switch, the call standing in a case clause whose literals are all
+// cases of sw. Then sw receives only names it handles; the dispatching switch is judged on its own.
+func (c *ctx) secondarySwitch(fc *fileCtx, sw *ast.SwitchStmt, tag ast.Expr, covered map[string]bool) string {
+	info := c.inter.TypesInfo
+	id, ok := tag.(*ast.Ident)
+	if !ok {
+		return ""
+	}
+	o := info.ObjectOf(id)
+	fd := fc.funcDecl(sw)
+	if o == nil || fd == nil || fd.Type.Params == nil {
+		return ""
+	}
+	pi, k := -1, 0
+	for _, f := range fd.Type.Params.List {
+		for _, nm := range f.Names {
+			if info.Defs[nm] == o {
+				pi = k
+			}
+			k++
+		}
+	}
+	fobj := info.Defs[fd.Name]
+	if pi < 0 || fobj == nil {
+		return ""
+	}
+	sites, good := 0, 0
+	var under []string
+	for _, cf := range c.files {
+		if cf.pkg != c.inter {
+			continue
+		}
+		cf := cf
+		ast.Inspect(cf.file, func(n ast.Node) bool {
+			call, ok := n.(*ast.CallExpr)
+			if !ok || pi >= len(call.Args) {
+				return true
+			}
+			if fn := astx.Callee(info, call); fn == nil || types.Object(fn) != fobj {
+				return true
+			}
+			sites++
+			ao := astx.IdentObj(info, call.Args[pi])
+			if ao == nil {
+				return true
+			}
+			for x := cf.par[ast.Node(call)]; x != nil; x = cf.par[x] {
+				cc, ok := x.(*ast.CaseClause)
+				if !ok || cc.List == nil {
+					continue
+				}
+				body, _ := cf.par[cc].(*ast.BlockStmt)
+				if body == nil {
+					continue
+				}
+				osw, _ := cf.par[body].(*ast.SwitchStmt)
+				if osw == nil || osw.Tag == nil || astx.IdentObj(info, osw.Tag) != ao {
+					continue
+				}
+				all := true
+				for _, e := range cc.List {
+					bl, isLit := astx.Unparen(e).(*ast.BasicLit)
+					if !isLit || bl.Kind != token.STRING || !covered[strings.Trim(bl.Value, `"`)] {
+						all = false
+					} else {
+						under = append(under, strings.Trim(bl.Value, `"`))
+					}
+				}
+				if all {
+					good++
+				}
+				break
+			}
+			return true
+		})
+	}
+	if sites == 0 || good != sites {
+		return ""
+	}
+	sort.Strings(under)
+	return fmt.Sprintf("reached only from %d call site(s) under the cases %s of a switch over the same name, all of which it handles", sites, strings.Join(under, ", "))
 }
